@@ -163,17 +163,57 @@ def build_grid(faces):
                                       np.array(conn, dtype=np.intp), fill_value=FILL)
 
 
-def impl_bounds(faces):
-    """list of 2x2 lists (radians) or ('EXC', repr) per face; batches first, single faces when a batch raises"""
+SOURCES = ("topology", "xyz_bounds_first", "xyz_lonlat_first", "xyz_isel", "vertices_lonlat")
+
+
+def build_grid_vertices(faces, source):
+    """Grid.from_face_vertices for faces of ONE size: Cartesian-only (latlon=False) or lon/lat vertices"""
+    I = impl()
+    if source == "vertices_lonlat":
+        arr = np.array([[list(p) for p in zip(*face_lonlat_deg(f))] for f in faces], dtype=float)
+        return I["ux"].Grid.from_face_vertices(arr, latlon=True)
+    arr = np.array([[c14.unitf(v) for v in f["corners"]] for f in faces], dtype=float)
+    return I["ux"].Grid.from_face_vertices(arr, latlon=False)
+
+
+def bounds_of(faces, source):
+    """Grid.bounds (radians) of the faces for one source / provenance class and order of first access"""
+    if source == "topology":
+        return build_grid(faces).bounds.values
+    g = build_grid_vertices(faces, source)
+    if source == "xyz_lonlat_first":
+        _ = g.node_lon.values, g.node_lat.values
+        return g.bounds.values
+    if source == "xyz_isel":
+        # a subset of a FRESH Cartesian-only grid (nothing derived yet), all faces in reverse order
+        idx = list(range(len(faces)))[::-1]
+        b = g.isel(n_face=idx).bounds.values
+        out = np.empty_like(b)
+        for k, i in enumerate(idx):
+            out[i] = b[k]
+        return out
+    return g.bounds.values          # xyz_bounds_first / vertices_lonlat: bounds is the first thing read
+
+
+def impl_bounds(faces, source="topology"):
+    """list of 2x2 lists (radians) or ('EXC', repr) per face; batches first, single faces when a batch raises.
+    from_face_vertices needs faces of one size: other sources than "topology" are batched by corner count"""
+    if source != "topology" and len({len(f["corners"]) for f in faces}) > 1:
+        out = [None] * len(faces)
+        for n in sorted({len(f["corners"]) for f in faces}):
+            idx = [i for i, f in enumerate(faces) if len(f["corners"]) == n]
+            for i, b in zip(idx, impl_bounds([faces[i] for i in idx], source)):
+                out[i] = b
+        return out
     try:
-        b = build_grid(faces).bounds.values
+        b = bounds_of(faces, source)
         return [b[i].tolist() for i in range(len(faces))]
     except Exception as e:
         if len(faces) == 1:
             return [("EXC", repr(e))]
     out = []
     for f in faces:
-        out += impl_bounds([f])
+        out += impl_bounds([f], source)
     return out
 
 
@@ -361,6 +401,10 @@ def frame_at(lon, lat, spin):
 
 
 def gen_face(rng, fam):
+    if fam == "long_equator_edge":
+        return gen_long_equator_edge(rng)
+    if fam == "pole_inside_near_corner":
+        return gen_pole_inside_near_corner(rng)
     n = rng.choice([3, 3, 4, 4, 4, 5, 6, 7, 8])
     spin = rng.uniform(0, TWO_PI)
     f = {"family": fam}
@@ -437,12 +481,54 @@ def gen_face(rng, fam):
     return f
 
 
-FAMS = ["generic", "generic", "small", "small", "seam", "equator", "pole_inside", "pole_near", "pole_corner", "latlon_quad", "big"]
+def gen_long_equator_edge(rng, _depth=0):
+    """a face with an edge 95..175 degrees long that crosses the equator and bulges poleward beyond both of its end
+    points on the far side (the apex of its great circle lies inside the edge)"""
+    inc = rng.uniform(0.3, 1.25)                   # inclination of the edge's great circle = latitude of its apex
+    eps_, dlt = rng.uniform(0.03, 0.5), rng.uniform(0.1, 1.0)
+    node = rng.uniform(-math.pi, math.pi)          # longitude of the ascending node
+    sgn = rng.choice([1, -1])                      # bulge on the northern / southern hemisphere
+
+    def on_circle(theta, i):
+        x, y, z = math.cos(theta), math.sin(theta) * math.cos(i), math.sin(theta) * math.sin(i)
+        return (x * math.cos(node) - y * math.sin(node), x * math.sin(node) + y * math.cos(node), sgn * z)
+    tA, tB = -eps_, math.pi / 2 + dlt
+    pts = [on_circle(tA, inc), on_circle(tB, inc)]
+    inner = inc - rng.uniform(0.08, 0.25)          # further corners on a flatter circle through the same nodes
+    k = rng.choice([1, 1, 2, 3])
+    ts = sorted((rng.uniform(tA + 0.1, tB - 0.1) for _ in range(k)), reverse=True)
+    pts += [on_circle(t, inner) for t in ts]
+    cs = [reduce(lattice(p)) for p in pts]
+    if not convex_ccw(cs):
+        cs = cs[::-1]
+    if not convex_ccw(cs) and _depth < 50:
+        return gen_long_equator_edge(rng, _depth + 1)
+    return {"family": "long_equator_edge", "corners": cs}
+
+
+def gen_pole_inside_near_corner(rng):
+    """a pole-enclosing face with one corner 2e-4 .. 4.4e-3 rad (0.011 .. 0.25 degrees) from the pole"""
+    s = rng.choice([1, -1])
+    for _ in range(200):
+        n = rng.choice([3, 3, 4, 5, 6, 8])
+        lons = sorted(rng.uniform(0, TWO_PI) for _ in range(n))
+        cols = [10 ** rng.uniform(-1.7, -0.3) for _ in range(n)]
+        k = rng.randrange(n)
+        cols[k] = 10 ** rng.uniform(math.log10(2e-4), math.log10(4.4e-3))
+        pts = [(math.sin(c) * math.cos(l), math.sin(c) * math.sin(l) * s, s * math.cos(c)) for c, l in zip(cols, lons)]
+        cs = [reduce(lattice(p, 1 << 40)) for p in pts]
+        if convex_ccw(cs) and pole_status(cs, (0, 0, s))[0] == "inside" and pole_status(cs, (0, 0, s))[1] > 2 * MARGIN:
+            return {"family": "pole_inside_near_corner", "corners": cs}
+    return gen_face(rng, "pole_inside")
+
+
+FAMS = ["generic", "generic", "small", "small", "seam", "equator", "pole_inside", "pole_near", "pole_corner", "latlon_quad", "big",
+        "long_equator_edge", "pole_inside_near_corner"]
 
 
 def classify(face):
     """oracle + scope of one face"""
-    vs = face["corners"]
+    vs = face["corners"][::-1] if face.get("reversed") else face["corners"]
     ok = 3 <= len(vs) <= 8 and len(set(vs)) == len(vs) and convex_ccw(vs)
     if not ok:
         face["in_scope"] = False
@@ -463,22 +549,36 @@ def classify(face):
         why = "pole within the margin of the boundary"
     elif not orc["full"] and orc["lon_width"] >= math.pi - 1e-6:
         why = "longitude extent >= 180 without an enclosed pole"
-    elif orc["pole_dist"] < 2 * SNAP and "corner" not in (orc["north"], orc["south"]):
-        why = "boundary passes through the pole snap zone"
     face["in_scope"] = why is None
     face["why"] = why
     return face
 
 
 def variants(rng, face, k=2):
-    """the face with other traversal starts (and the same orientation)"""
+    """the face with other traversal starts, with the opposite traversal direction, and from other source classes"""
     n = len(face["corners"])
+    everything = face["family"] in ("long_equator_edge", "design_witness")
     out = [face]
-    for s in rng.sample(range(1, n), min(k, n - 1)):
+    starts = list(range(1, n)) if everything else rng.sample(range(1, n), min(k, n - 1))
+    for s in starts:
         g = dict(face)
         g["corners"] = face["corners"][s:] + face["corners"][:s]
         g["start"] = s
         out.append(g)
+    base = list(out)
+    for g0 in (base if everything else base[:1]):
+        if everything or rng.random() < 0.5:
+            g = dict(g0)
+            g["corners"] = g0["corners"][::-1]
+            g["reversed"] = True
+            out.append(g)
+    # source / provenance class x order of first access (one extra per face, all of them over a run)
+    src = SOURCES[1 + rng.randrange(len(SOURCES) - 1)]
+    g = dict(face)
+    g["source"] = src
+    if "pole_lon" in g and src.startswith("xyz"):
+        g["pole_lon"] = 0.0          # a Cartesian-only source has no nominal pole longitude: the library derives 0
+    out.append(g)
     return out
 
 
@@ -533,6 +633,7 @@ def judge(ck, face, box, st):
         info = {"family": fam, "branch": branch, "pole": orc["north"] if orc["north"] != "outside" else orc["south"],
                 "ref_point_inside": orc["ref_point_inside"], "location": orc["location"],
                 "vertex_on_ref_meridian": any(v[1] == 0 and v[0] > 0 for v in face["corners"]),
+                "source": face.get("source", "topology"), "reversed": bool(face.get("reversed")),
                 "enclosed_pole": "north" if orc["north"] == "inside" else ("south" if orc["south"] == "inside" else "none")}
         if clause == "raises":
             info["exception"] = box[1].split("(")[0]
@@ -564,7 +665,7 @@ def judge(ck, face, box, st):
 
 
 def evaluate_one(ck, f, st, model_ok):
-    box = impl_bounds([f])[0]
+    box = impl_bounds([f], f.get("source", "topology"))[0]
     if model_ok:
         prim = impl_primitives(f)
         f["_prim"] = prim
@@ -578,7 +679,7 @@ def evaluate_one(ck, f, st, model_ok):
 
 def gen_cases(ck):
     rng = ck.rng
-    n = 420 if ck.tier == "quick" else 15000
+    n = 390 if ck.tier == "quick" else 13000
     faces = []
     cdir = os.path.join(common.VERIF, "corpus", "C13")
     if os.path.isdir(cdir):
@@ -590,6 +691,8 @@ def gen_cases(ck):
         return reduce(lattice((math.cos(la) * math.cos(lo), math.cos(la) * math.sin(lo), math.sin(la))))
     faces.append({"family": "design_witness", "corners": [ll(0, 40), ll(60, 40.5), ll(60, 60), ll(0, 60)]})
     faces.append({"family": "design_witness", "corners": [ll(0, -40), ll(0, -60), ll(60, -60), ll(60, -40.5)]})
+    for i in range(6):          # directed: present at every seed (all starts, both traversal directions)
+        faces.append(gen_long_equator_edge(rng))
     for i in range(n):
         faces.append(gen_face(rng, FAMS[i % len(FAMS)]))
     return faces
@@ -609,9 +712,13 @@ def evaluate(ck, faces, st, model_ok):
             v["in_scope"] = True
             todo.append(v)
     B = 60
-    boxes = []
-    for i in range(0, len(todo), B):
-        boxes += impl_bounds(todo[i:i + B])
+    boxes = [None] * len(todo)
+    for src in SOURCES:
+        idx = [i for i, f in enumerate(todo) if f.get("source", "topology") == src]
+        for j in range(0, len(idx), B):
+            part = idx[j:j + B]
+            for i, b in zip(part, impl_bounds([todo[i] for i in part], src)):
+                boxes[i] = b
     if model_ok:
         lines, owners = [], []
         for f in todo:
@@ -631,6 +738,7 @@ def evaluate(ck, faces, st, model_ok):
         ck.note_case((tuple(f["corners"]), f.get("pole_lon")), True)
         orc = f["oracle"]
         st.add("face", f["family"], "pole=" + (orc["north"] if orc["north"] != "outside" else orc["south"]))
+        st.add("source", f.get("source", "topology"), "reversed" if f.get("reversed") else "ccw")
         st.add("corners", len(f["corners"]))
         bad = judge(ck, f, box, st)
         if not bad:
